@@ -17,6 +17,10 @@ from `aws_condition_variable_wait_for` (source/posix/condition_variable.c):
   cv_abs_deadline(time_to_wait, current_sys_time)
                                            the absolute time handed to aws_timestamp_convert for pthread_cond_timedwait
 
+Besides, `lock_discipline` checks by AST shape that every access to the shared count / timeout / pending list of
+thread_shared.c sits inside s_managed_thread_lock in the order the model uses (a swap or push moved behind the unlock
+cannot be seen by a scheduler that only switches at pthread calls).
+
 Output: lean/AwsVerif/Gen/ThreadsTime.lean (namespace AwsVerif.Gen.Threads).  The bridge theorems in
 lean/AwsVerif/Props/C20.lean state that the model's arithmetic is exactly these functions.
 """
@@ -198,6 +202,85 @@ def parts(repo, inc):
     ]
 
 
+GLOBALS = ("s_unjoined_thread_count", "s_default_managed_join_timeout_ns", "s_pending_join_managed_threads")
+
+
+def _events(n, out):
+    """calls (by callee name) and writes to the shared variables of thread_shared.c, in source order"""
+    if isinstance(n, list):
+        for x in n:
+            _events(x, out)
+        return
+    if not isinstance(n, dict):
+        return
+    k = n.get("kind")
+    if k == "CallExpr":
+        for a in n["inner"][1:]:
+            _events(a, out)
+        out.append(_callee(n))
+        return
+    if k == "UnaryOperator" and n.get("opcode") in ("++", "--"):
+        g = _refs(n) & set(GLOBALS)
+        if g:
+            out.append(n["opcode"] + sorted(g)[0])
+            return
+    if k in ("BinaryOperator", "CompoundAssignOperator") and n.get("opcode", "").endswith("=") and n.get("opcode") not in ("==", "!=", "<=", ">="):
+        g = _refs(n["inner"][0]) & set(GLOBALS)
+        _events(n["inner"][1], out)
+        if g:
+            out.append("write " + sorted(g)[0])
+        return
+    if k == "DeclRefExpr" and n.get("referencedDecl", {}).get("name") in GLOBALS[:2]:
+        out.append("read " + n["referencedDecl"]["name"])
+        return
+    _events(n.get("inner", []), out)
+
+
+def lock_discipline(repo, inc):
+    """the lock scopes of thread_shared.c that the model takes as atomic sections (everything between `lock` and `unlock`
+    is one critical section there, and what follows an unlock up to the next pthread call cannot be interleaved under
+    detsched): every access to the count / timeout / pending list must sit inside the lock, in the modelled order"""
+    tsrc = os.path.join(repo, "source", "thread_shared.c")
+    tu = f'#include "{tsrc}"\n'
+    L, U = "aws_mutex_lock", "aws_mutex_unlock"
+    want = {
+        "aws_thread_increment_unjoined_count": [L, "++s_unjoined_thread_count", U],
+        "aws_thread_decrement_unjoined_count": [L, "--s_unjoined_thread_count", "aws_condition_variable_notify_one", U],
+        "aws_thread_get_managed_thread_count": [L, "read s_unjoined_thread_count", U],
+        "aws_thread_set_managed_join_timeout_ns": [L, "write s_default_managed_join_timeout_ns", U],
+        "aws_thread_pending_join_add": ["aws_linked_list_init", L, "aws_linked_list_swap_contents", "aws_linked_list_push_back", U,
+                                        "aws_thread_join_and_free_wrapper_list"],
+        "aws_thread_initialize_thread_management": ["aws_linked_list_init"],
+    }
+    for fn, seq in want.items():
+        nodes = cfun.dump_functions(tu, fn, inc)
+        if fn not in nodes:
+            raise GenError(f"{fn} not found in thread_shared.c")
+        ev = []
+        _events(_body(nodes[fn]), ev)
+        if ev != seq:
+            raise GenError(f"{fn}: lock discipline / statement order changed: {ev} (modelled: {seq})")
+    nodes = cfun.dump_functions(tu, "aws_thread_join_all_managed", inc)
+    body = _body(nodes["aws_thread_join_all_managed"])
+    loop = [c for c in body if c["kind"] == "WhileStmt"][0]
+    pre = []
+    _events(body[:body.index(loop)], pre)
+    if pre[:3] != [L, "read s_default_managed_join_timeout_ns", U] or [e for e in pre[3:] if e != "aws_sys_clock_get_ticks"]:
+        raise GenError(f"aws_thread_join_all_managed: the timeout is no longer read once under the lock: {pre}")
+    ev = []
+    _events(loop["inner"][1], ev)
+    waits = {"aws_condition_variable_wait_for_pred", "aws_condition_variable_wait_pred"}
+    core_ev = [e for e in ev if e not in waits]
+    seq = [L, "read s_unjoined_thread_count", "aws_sys_clock_get_ticks", "aws_linked_list_init", "aws_linked_list_swap_contents", U,
+           "aws_thread_join_and_free_wrapper_list"]
+    if core_ev != seq or ev[1] not in waits:
+        raise GenError(f"aws_thread_join_all_managed: loop body lock discipline / order changed: {ev} (modelled: lock, wait, {seq[1:]})")
+    after = []
+    _events(body[body.index(loop) + 1:], after)
+    if after:
+        raise GenError(f"aws_thread_join_all_managed: calls / shared accesses after the loop: {after}")
+
+
 def generate(repo, cfg_inc):
     inc = ["-I" + os.path.join(repo, "include"), "-I" + cfg_inc, "-D_GNU_SOURCE"]
     out = ["/-! GENERATED by gen/threads_gen.py from /repo's source/thread_shared.c and source/posix/condition_variable.c",
@@ -209,5 +292,9 @@ def generate(repo, cfg_inc):
         except GenError as e:
             raise GenError(f"C20 timeout arithmetic / {name}: {e}")
         out.append(text)
+    lock_discipline(repo, inc)
+    out.append("/-- lock scopes of thread_shared.c checked by gen/threads_gen.py `lock_discipline` (a change raises a generation error) -/")
+    out.append("def lockDisciplineChecked : Bool := true")
+    out.append("")
     out.append("end AwsVerif.Gen.Threads")
     return "\n".join(out) + "\n"
